@@ -125,6 +125,7 @@ EXPORT errno_t _wctomb_s_chk(int *restrict retvalp, char *restrict dest,
 {
     int len;
     errno_t rc;
+    char tmp[MB_LEN_MAX];
 #if defined(__CYGWIN__) && defined(__x86_64)
     mbstate_t st;
 #endif
@@ -148,7 +149,11 @@ EXPORT errno_t _wctomb_s_chk(int *restrict retvalp, char *restrict dest,
         }
     }
 
-    len = *retvalp = wctomb(dest, wc);
+    /* convert into a scratch buffer: libc stores up to MB_CUR_MAX bytes */
+    len = *retvalp = wctomb(dest ? tmp : NULL, wc);
+    if (dest && len > 0 && (rsize_t)len < dmax) {
+        memcpy(dest, tmp, len);
+    }
 
     if (likely(len > 0 && (rsize_t)len < dmax)) {
 #ifdef SAFECLIB_STR_NULL_SLACK
